@@ -281,7 +281,9 @@ func (r *Resolver) resolveWithMethod(method string) (*bridgedesc.Target, error) 
 	if err != nil {
 		return nil, err
 	} else if !r.opts.OnlyServices && len(parsed.missingServices) > 0 {
-		r.logger.Warn("resolver received file descriptors with missing gRPC service definitions", "missing_services", parsed.missingServices)
+		// A description with services lacking all of their methods would replace proper routes with broken ones,
+		// it's better to report the inconsistency and keep the previously resolved description, if any.
+		return nil, fmt.Errorf("received file descriptors with missing gRPC service definitions: %v", parsed.missingServices)
 	}
 
 	// Save the hash only at the end, when we can be sure that the new set is fully valid.
